@@ -116,7 +116,9 @@ func vReadmeOps() []vOp {
 		{q: `query($s: Boolean!) { me { name ...F @skip(if: $s) } } fragment F on Human { phone age }`, vars: func() map[string]interface{} { return map[string]interface{}{"s": verifChoice("var_s", 2) == 1} }},
 		{q: `query($s: Boolean!) { getHumans { name friends @include(if: $s) { phone } } }`, vars: func() map[string]interface{} { return map[string]interface{}{"s": verifChoice("var_s", 2) == 1} }},
 		{q: `{ node(id: "h1") { id } }`, noNode: true, known: "node-without-fragment"},
-		{q: `{ __typename me { phone } }`, known: "root-typename"},
+		{q: `{ __typename me { phone } }`},
+		{q: `mutation { __typename saveHuman(name: "x") { name phone } }`},
+		{q: `{ t: __typename }`},
 		// lists and objects given for a custom scalar, with client variables inside
 		{q: `query($v: Int, $w: String) { me { tag(meta: [$v, {k: [$w]}]) phone } }`, vars: func() map[string]interface{} {
 			return map[string]interface{}{"v": verifInt("var_v", 0, 9), "w": "ww"}
@@ -347,7 +349,8 @@ func vAbstractOps() []vOp {
 		{q: `{ pets { ... on Cat { toy s: nick(short: true) l: nick(short: false) } ... on Dog { bone s: nick(short: true) } } }`},
 		{q: `query($s: Boolean!) { pets { ... on Cat @include(if: $s) { toy } ... on Dog { bone } } }`, vars: func() map[string]interface{} { return map[string]interface{}{"s": verifChoice("var_s", 2) == 1} }},
 		// node lookup with several fragments, one of them id-only on a type that two services declare
-		{q: `{ node(id: "c1") { ... on Cat { name toy } ... on Dog { id } } }`, known13: "node-fragments-scrub-order"},
+		{q: `{ node(id: "c1") { ... on Cat { name toy } ... on Dog { id } } }`},
+		{q: `{ node(id: "d1") { __typename ... on Cat { name toy } ... on Dog { id bone } } }`},
 		{q: `{ pets { name ... on Cat { toy lives } } }`, known: "abs-interface-field-plus-fragment"},
 		{q: `{ pets { id ... on Cat { toy } } }`, known: "abs-id-next-to-fragment"},
 		{q: `{ things { __typename ... on Cat { toy } } }`, known: "abs-typename-next-to-union-fragment"},
